@@ -345,6 +345,12 @@ class TestManager:
                 rmfolder(folder)
             raise InsaneTestCaseError(self.test_cases, self.test_script)
 
+    def get_cache_key(self, test_case, test_case_before_pass):
+        # The outcome of a pass on one file depends on the other test cases as well (the
+        # interestingness test sees all of them), so their contents are part of the key.
+        others = tuple((str(f), f.read_bytes()) for f in sorted(self.test_cases) if f != test_case)
+        return (test_case_before_pass, others)
+
     def release_folder(self, future):
         name = self.temporary_folders.pop(future)
         if not self.save_temps:
@@ -561,11 +567,12 @@ class TestManager:
                 if not self.no_cache:
                     with open(test_case, mode='rb+') as tmp_file:
                         test_case_before_pass = tmp_file.read()
+                        cache_key = self.get_cache_key(test_case, test_case_before_pass)
 
-                        if pass_key in self.cache and test_case_before_pass in self.cache[pass_key]:
+                        if pass_key in self.cache and cache_key in self.cache[pass_key]:
                             tmp_file.seek(0)
                             tmp_file.truncate(0)
-                            tmp_file.write(self.cache[pass_key][test_case_before_pass])
+                            tmp_file.write(self.cache[pass_key][cache_key])
                             logging.info(f'cache hit for {test_case}')
                             continue
 
@@ -618,7 +625,7 @@ class TestManager:
                         if pass_key not in self.cache:
                             self.cache[pass_key] = {}
 
-                        self.cache[pass_key][test_case_before_pass] = tmp_file.read()
+                        self.cache[pass_key][cache_key] = tmp_file.read()
 
             self.restore_mode()
             self.pass_statistic.stop(self.current_pass)
